@@ -1,6 +1,6 @@
 """Translate the *decision logic* of selected lenskit functions into Lean 4 definitions over `LK.Py.V` (= `Option Int`).
 
-Four modes, all driven by a table of *atoms* (source expressions, matched by their unparsed text, that become parameters):
+Four modes (plus `ifvar`, `copy` and `order`, described where they are implemented), all driven by a table of *atoms* (source expressions, matched by their unparsed text, that become parameters):
   var     the value a tracked variable has after the top-level statements of a function that assign it
           (`if` statements are followed when they assign the variable or leave the function early; other statements are skipped)
   fn      the value a (small) function returns
@@ -159,6 +159,16 @@ def translate_site(src_root, site):
         hits = [n for n in ast.walk(fn) if isinstance(n, ast.Assign) and any(ast.unparse(t) == site["var"] for t in n.targets)]
         if len(hits) != 1: raise Unsupported(f"{len(hits)} assignments to `{site['var']}` in {site['fn']} (expected one)")
         body = "  " + g.val(hits[0].value)
+    elif mode == "ifvar":
+        # the truth value a variable receives from the one `if … : var = a  else: var = b` statement that assigns it (wherever it is nested)
+        hits = [n for n in ast.walk(fn) if isinstance(n, ast.If) and len(n.body) == 1 and len(n.orelse) == 1
+                and all(isinstance(b, ast.Assign) and len(b.targets) == 1 and ast.unparse(b.targets[0]) == site["var"] for b in (n.body[0], n.orelse[0]))]
+        others = [n for n in ast.walk(fn) if isinstance(n, ast.Assign) and any(ast.unparse(t) == site["var"] for t in n.targets)]
+        if len(hits) != 1 or len(others) != 2: raise Unsupported(f"`{site['var']}` is not assigned by exactly one two-armed `if` in {site['fn']}")
+        def bval(e):
+            if isinstance(e, ast.Constant) and isinstance(e.value, bool): return "true" if e.value else "false"
+            return g.cond(e)
+        body = f"  if {g.cond(hits[0].test)} then {bval(hits[0].body[0].value)} else {bval(hits[0].orelse[0].value)}"; rty = "Bool"
     elif mode == "copy":
         # how deep a copy the code takes at a given place: 0 the object itself (an alias), 1 a fresh container holding the same members,
         # 2 a deep copy.  `where` is the text of an assignment target, or "return:<callee>" for the first argument of a returned call.
@@ -210,6 +220,7 @@ def translate_site(src_root, site):
         elifs = {id(n.orelse[0]) for n in ifs if len(n.orelse) == 1 and isinstance(n.orelse[0], ast.If)}
         heads = [n for n in ifs if id(n) not in elifs and site["select"] in ast.unparse(n)]
         heads = [n for n in heads if any(site["select"] in ast.unparse(t) for t in _chain_tests(n))]
+        if site.get("exact"): heads = [n for n in heads if ast.unparse(n.test) == site["select"]]          # the chain whose first test is exactly this text
         if len(heads) != 1: raise Unsupported(f"{len(heads)} `if` chains test `{site['select']}` in {site['fn']} (expected one)")
         if site.get("skips"):          # a retrain guard: the branch taken must leave at once, before the component's state is touched
             h = heads[0]
@@ -343,6 +354,31 @@ SITES["C16"] += [
          atoms={"item_ids": ("itemIds", O), "source": ("source", O), "source._ids": ("srcIds", O)}),
     dict(file="data/items.py", cls="ItemList", fn="__init__", mode="branch", select="self._len != source._len", lean="ctorDropRanksBranch",
          atoms={"isinstance(source, ItemList)": ("srcIsList", B), "self._len": ("newLen", I), "source._len": ("srcLen", I)}),
+]
+
+# the runner's decisions (C02): what a request of a finished / running node yields, when an input or a dependency is reported missing or
+# ill-typed, when a dependency is required of its source, and when a component that is not required bails out
+_RUN = dict(file="pipeline/runner.py", cls="PipelineRunner")
+SITES["C02"] += [
+    dict(_RUN, fn="run", mode="branch", select="status == 'finished'", lean="runStatusBranch",
+         atoms={"status == 'finished'": ("finished", B), "status == 'in-progress'": ("inProgress", B), "status == 'failed'": ("failed", B)}),
+    dict(_RUN, fn="run", mode="branch", select="node.name in self.state", lean="runFinishedBranch",
+         atoms={"node.name in self.state": ("hasState", B), "required": ("required", B)}),
+    dict(_RUN, fn="run", mode="branch", select="isinstance(node, InputNode)", lean="runRevalidateBranch",
+         atoms={"val": ("val", O), "required": ("required", B), "isinstance(node, InputNode)": ("isInput", B)}),
+    dict(_RUN, fn="_inject_input", mode="branch", select="is_compatible_data(None, *types)", lean="injectMissingBranch",
+         atoms={"val": ("val", O), "required": ("required", B), "types": ("typed", B), "is_compatible_data(None, *types)": ("noneOk", B)}),
+    dict(_RUN, fn="_inject_input", mode="branch", select="is_compatible_data(val, *types)", lean="injectTypeBranch",
+         atoms={"val": ("val", O), "types": ("typed", B), "is_compatible_data(val, *types)": ("valOk", B)}),
+    dict(_RUN, fn="_run_component", mode="ifvar", var="ireq", lean="inputRequired",
+         atoms={"required": ("required", B), "itype": ("typed", B), "is_compatible_data(None, itype)": ("noneOk", B)}),
+    dict(_RUN, fn="_run_component", mode="branch", select="not required", lean="bailOutBranch",
+         atoms={"ival": ("ival", O), "itype": ("typed", B), "lazy": ("lazy", B), "is_compatible_data(None, itype)": ("noneOk", B), "required": ("required", B)}),
+    dict(_RUN, fn="_run_component", mode="branch", select="is_compatible_data(ival, itype)", lean="inputTypeBranch",
+         atoms={"itype": ("typed", B), "lazy": ("lazy", B), "is_compatible_data(ival, itype)": ("valOk", B)}),
+    dict(_RUN, fn="_run_component", mode="branch", select="ival is None", exact=True, lean="inputErrorKindBranch", atoms={"ival": ("ival", O)}),
+    dict(file="pipeline/runner.py", cls="DeferredRun", fn="get", mode="branch", select="is_compatible_data(val, self.data_type)", lean="deferredTypeBranch",
+         atoms={"self.data_type": ("dataType", O), "is_compatible_data(val, self.data_type)": ("valOk", B)}),
 ]
 
 SITES["C07"] += [
